@@ -31,8 +31,8 @@ from simkit.rng import seed_globals  # noqa: E402
 from simkit.world import InvalidScenario, Monitor, Violation, repo_exception_sig, result, run_sim  # noqa: E402
 
 PROPERTY = "C14"
-RUNS = {"quick": 5000, "thorough": 600_000}
-WALL = {"quick": 55, "thorough": 1500}
+RUNS = {"quick": 4500, "thorough": 600_000}
+WALL = {"quick": 58, "thorough": 1500}
 BATCH = {"quick": 50, "thorough": 400}
 SELFTEST_RUNS = 12
 RULE = (
@@ -74,7 +74,8 @@ ASSUMPTIONS = [
     "one isolation level per transaction scenario (mixed levels are outside the statement)",
 ]
 EXPECTED_PROBES = [
-    "probe.read_during_flush", "probe.read_during_compaction", "probe.overlapping_compactions", "probe.overlapping_flushes",
+    "probe.read_during_flush", "probe.read_during_compaction", "probe.compaction_requested_while_one_in_progress", "probe.overlapping_flushes",
+    "probe.read_served_by_immutable_memtable", "probe.tombstone_dropped_at_deepest_level", "probe.four_levels_occupied", "probe.btree_depth_ge_4",
     "probe.read_overlaps_write_same_key", "probe.read_of_deleted_key", "probe.tombstone_in_sstable", "probe.deepest_level_reached",
     "probe.three_levels_occupied", "probe.bloom_false_positive_on_read_path", "probe.scan_nonempty", "probe.trigger_compaction_started",
     "probe.btree_split_during_get", "probe.btree_depth_ge_3", "probe.tx_conflict_abort", "probe.tx_commit_between_reads",
@@ -130,38 +131,44 @@ def gen(rng, tier):
 def _clients(rng, n_keys, klass, scans=True):
     cl = []
     if klass == "seq":
-        cl.append({"start_ns": 0, "ops": _ops(rng, n_keys, rng.randint(8, 25), M_MIX, scans)})
-    elif klass.startswith("1w"):
-        cl.append({"start_ns": rng.choice(START_NS), "ops": _ops(rng, n_keys, rng.randint(6, 20), W_MIX, scans)})
+        cl.append({"start_ns": 0, "ops": _ops(rng, n_keys, rng.randint(10, 40), M_MIX, scans)})
+    elif klass == "rw":  # dedicated writers and readers
         for _ in range(rng.randint(1, 3)):
-            cl.append({"start_ns": rng.choice(START_NS), "ops": _ops(rng, n_keys, rng.randint(4, 20), R_MIX, scans)})
+            cl.append({"start_ns": rng.choice(START_NS), "ops": _ops(rng, n_keys, rng.randint(6, 30), W_MIX, scans)})
+        for _ in range(rng.randint(1, 4)):
+            cl.append({"start_ns": rng.choice(START_NS), "ops": _ops(rng, n_keys, rng.randint(4, 30), R_MIX, scans)})
     else:
-        for _ in range(rng.randint(2, 6)):
-            cl.append({"start_ns": rng.choice(START_NS), "ops": _ops(rng, n_keys, rng.randint(4, 16), M_MIX, scans)})
+        for _ in range(rng.randint(2, 8)):
+            cl.append({"start_ns": rng.choice(START_NS), "ops": _ops(rng, n_keys, rng.randint(4, 24), M_MIX, scans)})
     return cl
 
 
+TRIGGER_NS = [500_000, 1_000_000, 2_000_000, 3_000_000, 5_000_000, 8_000_000, 12_000_000, 20_000_000, 30_000_000, 45_000_000]
+
+
 def _gen_lsm(rng):
-    klass = rng.choices(["seq", "1w-mt1", "1w-mt1-trig", "1w", "nw"], weights=[20, 15, 10, 20, 35])[0]
+    # the avoidance classes of the pre-fix check (single writer, memtable 1) are folded back: every concurrent class may
+    # now have several writers, any memtable size and CompactionTriggers
+    klass = rng.choices(["seq", "rw", "mixed"], weights=[15, 35, 50])[0]
     keys = _keys(rng)
-    mt = 1 if klass.startswith("1w-mt1") else (None if klass in ("seq", "nw") else rng.choice([2, 2, 3, 4, 6, 8]))
-    eng = S.gen_lsm_spec(rng, memtable=mt)
+    if rng.random() < 0.4:  # more keys: more SSTables per level, multi-level compaction
+        keys = sorted(set(keys) | {f"k{i:02d}" for i in rng.sample(range(100), rng.randint(1, 4))})
+    eng = S.gen_lsm_spec(rng)
+    eng["max_levels"] = rng.choice([2, 3, 3, 4, 4, 5])
     sc = {"kind": "lsm", "klass": f"lsm/{klass}", "seed": rng.getrandbits(32), "keys": keys, "engine": eng,
           "clients": _clients(rng, len(keys), klass),
           "probe": klass != "seq" and rng.random() < 0.5,
           "triggers": []}
-    if klass == "1w-mt1-trig" or (klass == "nw" and rng.random() < 0.3):
-        sc["triggers"] = sorted(rng.choice([500_000, 1_000_000, 2_000_000, 3_000_000, 5_000_000, 8_000_000, 12_000_000,
-                                            20_000_000, 30_000_000]) + rng.choice([0, 10_000, 100_000, 1_100_000])
-                                for _ in range(rng.randint(2, 8)))
+    if klass != "seq" and rng.random() < 0.4:
+        sc["triggers"] = sorted(rng.choice(TRIGGER_NS) + rng.choice([0, 10_000, 100_000, 1_100_000]) for _ in range(rng.randint(2, 10)))
     return sc
 
 
 def _gen_btree(rng):
-    klass = rng.choices(["seq", "1w", "nw"], weights=[25, 25, 50])[0]
+    klass = rng.choices(["seq", "rw", "mixed"], weights=[20, 30, 50])[0]
     keys = _keys(rng)
-    if rng.random() < 0.5:  # more keys -> deeper trees
-        keys = sorted(set(keys) | {f"k{i:02d}" for i in rng.sample(range(100), rng.randint(3, 8))})
+    if rng.random() < 0.6:  # more keys -> deeper trees
+        keys = sorted(set(keys) | {f"k{i:02d}" for i in rng.sample(range(100), rng.randint(3, 16))})
     eng = {"kind": "btree", "order": rng.choice([3, 3, 4, 5, 6]), "r_us": rng.choice([100, 1000, 1000, 2000]),
            "w_us": rng.choice([0, 500, 2000])}
     return {"kind": "btree", "klass": f"btree/{klass}", "seed": rng.getrandbits(32), "keys": keys, "engine": eng,
@@ -169,7 +176,7 @@ def _gen_btree(rng):
 
 
 def _gen_kv(rng):
-    klass = rng.choice(["seq", "nw"])
+    klass = rng.choice(["seq", "mixed"])
     keys = _keys(rng)
     eng = {"kind": "kv", "r_us": rng.choice([0, 100, 1000]), "w_us": rng.choice([0, 500, 5000]), "d_us": rng.choice([0, 500, 5000])}
     return {"kind": "kv", "klass": f"kv/{klass}", "seed": rng.getrandbits(32), "keys": keys, "engine": eng,
@@ -185,15 +192,16 @@ def _gen_tx(rng):
     skind = rng.choices(["lsm", "btree", "kv"], weights=[45, 25, 30])[0]
     if skind == "lsm":
         store = S.gen_lsm_spec(rng, memtable=rng.choice([1, 2, 3]), wal="no")
+        store["max_levels"] = rng.choice([2, 3, 4])
     elif skind == "btree":
         store = {"kind": "btree", "order": rng.choice([3, 3, 4]), "r_us": rng.choice([100, 1000]), "w_us": 500}
     else:
         store = {"kind": "kv", "r_us": rng.choice([0, 100, 1000]), "w_us": 500, "d_us": 500}
     n = len(keys)
     txs = []
-    for _ in range(rng.randint(2, 6)):
+    for _ in range(rng.randint(2, 8)):
         ops = []
-        for _ in range(rng.randint(1, 4)):
+        for _ in range(rng.randint(1, 6)):
             ops.append({"op": rng.choice(["r", "r", "w"]), "k": rng.randrange(n), "gap_ns": rng.choice(TX_GAP_NS)})
         txs.append({"start_ns": rng.choice([0, 0, 0, 1_000, 10_000, 500_000, 2_000_000, 4_000_000]), "ops": ops,
                     "end": "abort" if rng.random() < 0.1 else "commit", "end_gap_ns": rng.choice(TX_GAP_NS)})
@@ -300,8 +308,8 @@ class StoreRun:
     # ---- the per-delivery hook -----------------------------------------
     def after_delivery(self, ev, mon):
         if self.watch is not None:
-            self.watch.observe()
             ph = self.tracker.phases()
+            self.watch.observe(ph["compact"])
             if ph["compact"] >= 2:
                 self.bump("probe.overlapping_compactions")
                 self.overlap_seen = True
@@ -375,6 +383,8 @@ class Client(Entity):
                 R.note_read_start(self.gen, key)
                 if R.is_lsm:
                     self._bloom_probe(key)
+                    if cap["view"] and cap["view"][0][0] == "imm":
+                        R.bump("probe.read_served_by_immutable_memtable")
                 got = yield from store.get(key)
                 hist.complete(h, got)
                 if R.is_btree and cap["splits"] != store._total_splits:
@@ -513,6 +523,12 @@ def run_store(sc):
             R.bump("probe.deepest_level_reached")
         if R.watch.max_levels_occupied >= 3:
             R.bump("probe.three_levels_occupied")
+        if R.watch.max_levels_occupied >= 4:
+            R.bump("probe.four_levels_occupied")
+        if R.watch.tombstone_dropped:
+            R.bump("probe.tombstone_dropped_at_deepest_level")
+        if R.watch.compaction_requests_while_busy:
+            R.bump("probe.compaction_requested_while_one_in_progress")
         if R.kicker.fired:
             R.bump("probe.trigger_compaction_started")
             R.c["fault.compaction_trigger_started_compaction"] = R.kicker.fired
@@ -526,6 +542,8 @@ def run_store(sc):
     elif R.is_btree:
         if R.store._depth >= 3:
             R.bump("probe.btree_depth_ge_3")
+        if R.store._depth >= 4:
+            R.bump("probe.btree_depth_ge_4")
         state = repr(("btree", sc["engine"]["order"], R.store._depth, min(R.store._total_splits, 6),
                       bool(R.c.get("probe.btree_split_during_get"))))
         R.c["btree_splits"] = R.store._total_splits
